@@ -52,6 +52,7 @@ type Term struct {
 	pats  [][]*Term
 	open  bool // contains bound variables
 	n     int  // dag size estimate (capped)
+	qd    int  // quantifier nesting depth
 }
 
 type TermStore struct {
@@ -102,6 +103,12 @@ func (ts *TermStore) mk(kind byte, op string, sort Sort, args []*Term, bvars []*
 		if t.n > 1<<30 {
 			t.n = 1 << 30
 		}
+		if a.qd > t.qd {
+			t.qd = a.qd
+		}
+	}
+	if kind == 'q' {
+		t.qd++
 	}
 	if kind == 'q' {
 		// closed if every bound var occurring is bound here or the body is otherwise closed
@@ -186,7 +193,7 @@ func BoolLit(b bool) *Term {
 func sanitize(name string) string {
 	var sb strings.Builder
 	for _, c := range name {
-		if c >= 'a' && c <= 'z' || c >= 'A' && c <= 'Z' || c >= '0' && c <= '9' || c == '_' || c == '.' || c == '$' || c == '!' || c == '#' || c == '@' {
+		if c >= 'a' && c <= 'z' || c >= 'A' && c <= 'Z' || c >= '0' && c <= '9' || c == '_' || c == '.' || c == '$' || c == '!' {
 			sb.WriteRune(c)
 		} else {
 			sb.WriteByte('_')
@@ -289,6 +296,11 @@ func And(as ...*Term) *Term {
 	if len(out) == 1 {
 		return out[0]
 	}
+	for _, x := range out {
+		if x.kind == 'a' && x.op == "not" && seen[x.args[0].id] {
+			return False
+		}
+	}
 	return TS.mk('a', "and", SBool, out, nil, nil)
 }
 
@@ -357,6 +369,13 @@ func Ite(c, a, b *Term) *Term {
 	}
 	if a.sort != b.sort {
 		panic(fmt.Sprintf("ite sort mismatch %s vs %s", a.sort, b.sort))
+	}
+	// the same condition nested directly below is decided by the outer one
+	if a.kind == 'a' && a.op == "ite" && a.args[0] == c {
+		return Ite(c, a.args[1], b)
+	}
+	if b.kind == 'a' && b.op == "ite" && b.args[0] == c {
+		return Ite(c, a, b.args[2])
 	}
 	if a.sort == SBool {
 		if a == True && b == False {
@@ -461,6 +480,9 @@ func arith(op string, a, b *Term) *Term {
 			return b
 		}
 	}
+	if (op == "+" || op == "*") && a.id > b.id {
+		a, b = b, a
+	}
 	return TS.mk('a', op, a.sort, []*Term{a, b}, nil, nil)
 }
 
@@ -558,6 +580,13 @@ func Select(a, i *Term) *Term {
 	if a.kind == 'a' && a.op == "constarr" {
 		return a.args[0]
 	}
+	// lift ite out of selects so that read-over-write simplifies syntactically
+	if a.kind == 'a' && a.op == "ite" {
+		return Ite(a.args[0], Select(a.args[1], i), Select(a.args[2], i))
+	}
+	if i.kind == 'a' && i.op == "ite" && a.kind == 'a' && a.op == "store" {
+		return Ite(i.args[0], Select(a, i.args[1]), Select(a, i.args[2]))
+	}
 	return TS.mk('a', "select", vs, []*Term{a, i}, nil, nil)
 }
 
@@ -586,7 +615,35 @@ func Forall(vars []*Term, body *Term, pats ...[]*Term) *Term {
 	if len(vars) == 0 {
 		return body
 	}
+	vars, body, pats = canonBound(vars, body, pats)
 	return TS.mk('q', "forall", SBool, []*Term{body}, vars, pats)
+}
+
+// canonBound renames bound variables to names that depend only on nesting depth, position and
+// sort, so that alpha-equivalent quantified formulas are the same term.
+func canonBound(vars []*Term, body *Term, pats [][]*Term) ([]*Term, *Term, [][]*Term) {
+	d := body.qd + 1
+	m := map[int]*Term{}
+	nv := make([]*Term, len(vars))
+	for k, v := range vars {
+		nv[k] = TS.mk('b', fmt.Sprintf("q%d_%d", d, k), v.sort, nil, nil, nil)
+		if nv[k] != v {
+			m[v.id] = nv[k]
+		}
+	}
+	if len(m) == 0 {
+		return vars, body, pats
+	}
+	body = Subst(body, m)
+	var np [][]*Term
+	for _, p := range pats {
+		var q []*Term
+		for _, x := range p {
+			q = append(q, Subst(x, m))
+		}
+		np = append(np, q)
+	}
+	return nv, body, np
 }
 
 func Exists(vars []*Term, body *Term) *Term {
@@ -596,6 +653,7 @@ func Exists(vars []*Term, body *Term) *Term {
 	if len(vars) == 0 {
 		return body
 	}
+	vars, body, _ = canonBound(vars, body, nil)
 	return TS.mk('q', "exists", SBool, []*Term{body}, vars, nil)
 }
 
@@ -819,6 +877,7 @@ func Script(logicOpts string, prelude func(seen map[string]bool) (string, bool),
 	var sb strings.Builder
 	sb.WriteString(logicOpts)
 	sb.WriteString("(declare-sort Str 0)\n")
+	sb.WriteString(dtPrelude)
 	pre, quant := prelude(p.symSeen)
 	sb.WriteString(pre)
 	for _, s := range TS.dord {
